@@ -11,7 +11,7 @@
 (***************************************************************************)
 EXTENDS Integers, Sequences, SequencesExt, TLC, Json, StreamLaws
 
-CONSTANTS MaxLen, MaxTok, MaxFrag, EmitLen, EmitTok, Bounded
+CONSTANTS MaxLen, MaxTok, MaxFrag, EmitLen, EmitTok, EmitFrag, Bounded
 
 P == INSTANCE MappingSyntax WITH SourceFileBounded <- Bounded
 
@@ -26,7 +26,8 @@ Fragments == {<<10>>, <<13, 10>>,
               B("    int f"), B(" -> g"), B("    void m(x"), B(") -> n"), B("):3:4 -> n"), B("    1:2:void m()"), B(":3"),
               B("    1:"), B("2:void m() -> n"), B("    void"), B(" m() -> n"),
               B("# k"), B(": v"), B("# {\"id\":\"sourceFile\",\"fileName\":\"F"), B("\"}"),
-              B("# {\"id\":\"sourceFile\",\"fileName\":\"F") \o <<92>>, <<92, 34>>}   \* a backslash (no escape syntax exists) at the line end
+              B("# {\"id\":\"sourceFile\",\"fileName\":\"F") \o <<92>>, <<92, 34>>,
+              B("# {\"id\":\"sourceFile\",\"fileName\":\"F\","), B("}"), B("\"x\":1}")}    \* (something else than "} behind the name)   \* a backslash (no escape syntax exists) at the line end
 
 \* UTF-8 is validated token by token: a character cut short (in front of a delimiter or anywhere else), a stray
 \* continuation byte, an invalid byte and a well-formed two-byte character are inserted at EVERY byte position of
@@ -62,7 +63,7 @@ Laws ==
 
 \* strings up to EmitLen / EmitTok are printed for replay into the real iterator
 EmitCase ==
-  (n > 0 /\ n <= (IF mode = "bytes" THEN EmitLen ELSE IF mode = "tokens" THEN EmitTok ELSE IF mode = "utf8" THEN 1 ELSE MaxFrag)) =>
+  (n > 0 /\ n <= (IF mode = "bytes" THEN EmitLen ELSE IF mode = "tokens" THEN EmitTok ELSE IF mode = "utf8" THEN 1 ELSE EmitFrag)) =>
     PrintT("CASE " \o ToJson([src |-> s, splits |-> SetToSortSeq(Splits(s), LAMBDA a, b : a < b)]))
 
 Inv == Laws /\ EmitCase
